@@ -133,7 +133,30 @@ def run(ctx):
     ctx.log(f"{len(h.slots)} slots, {len(cases)} cases; building harness")
     if not h.build():
         ctx.log(h.build_log[-3000:])
-        ctx.violation({"kind": "harness-build", "obligation": "the serde harness (feature serde) no longer compiles against /repo", "log": h.build_log[-3000:]}, no_input=True)
+        # which quantity lost (or gained a condition on) Serialize / Deserialize?  rustc decides quantity and storage type side by side
+        from .. import progs as PG
+        probes, pm = [], []
+        for qm in QUANTS:
+            q = t.qmap[qm]
+            for ty in ("f64", "i64", "bigrational"):
+                rt = STYPES[ty]["rust"]
+                for cap in ("uom::serde::Serialize", "uom::serde::de::DeserializeOwned"):
+                    for onq in (True, False):
+                        ty_ = f"uom::si::{qm}::{q['alias']}<uom::si::SI<{rt}>, {rt}>" if onq else rt
+                        probes.append(PG.Program("(unchanged (() Kind 0))", [], f"fn need<T: {cap}>() {{}} need::<{ty_}>(); String::new()", f"{ty_}: {cap}"))
+                    pm.append((qm, ty, cap))
+        rv = PG.classify("c13caps", FEATURE_SETS["all"], probes)
+        found = 0
+        for k, (qm, ty, cap) in enumerate(pm):
+            rq, rs = rv.get(2 * k, (None, []))[0], rv.get(2 * k + 1, (None, []))[0]
+            if rq is not None and rs is not None and rq != rs and found < 3:
+                found += 1
+                ctx.violation({"kind": "capability", "spec": "C13: a quantity serializes / deserializes exactly when (and as) its storage type does",
+                               "quantity": qm, "storage": ty, "trait": cap, "quantity_implements": rq, "storage_type_implements": rs,
+                               "program": probes[2 * k].rust_fn("probe"), "features": FEATURE_SETS["all"],
+                               "how_to_replay": "put PRELUDE (vlib/progs.py) and this function into a crate depending on uom (path /repo) with the listed features; cargo check"})
+        if not found:
+            ctx.violation({"kind": "harness-build", "obligation": "the serde harness (feature serde) no longer compiles against /repo", "log": h.build_log[-3000:]}, no_input=True)
         return
     impl = h.run(cases)
     ctx.log(f"implementation answered {len(impl)}")
